@@ -13,14 +13,14 @@ PROPS = {
     "C02": dict(
         title="tree constraints (eq/diseq programs)",
         props_module="PvModel.Props.C02",
-        props_extra=["PvModel.Props.C02Program", "PvModel.Props.C02Decide", "PvModel.Props.C02Rel"],
+        props_extra=["PvModel.Props.C02Program", "PvModel.Props.C02Decide", "PvModel.Props.C02Rel", "PvModel.Props.C02Answer"],
         rule="pure tree programs (1-6 atoms ==/!= over <=2 query + <=3 hidden variables, nested conde/fresh, compounds), each run as written and "
              "under random permutations of every conjunction; targets: subsuming pairs, disequalities simplified/violated by later equalities; "
              "observable: canonical answer terms + truth table of the reported constraints over an 8-element universe; non-trivial = an answer "
              "carries constraints or there are >=2 answers; distinct = distinct case lines",
         trusted=SEARCH_TRUST,
         assumptions=["the oracle decides existence of hidden-variable values with an independent Robinson unifier (disequalities over an infinite universe)"],
-        open=["C02_answer_instances is about the SEMANTIC answer (walked query terms + the stored disequalities over their variables); that the reported answer (reifyFinal / purified / normalizedCs / walkCst) equals it up to the renaming to `_` variables and the removal of subsumed constraints is carried by C03 (shape) and the correspondence, not by a theorem"],
+        open=["C02_reported_answer (Props/C02Answer.lean) closes the step from the semantic answer to the REPORTED one for lists of ==/!= atoms; for whole programs it applies to each delivered state (C02_program_exact: every delivered state is the state of one path); that `reify(x)` as a GOAL reaches `reifyFinal` unchanged on tree states (`enforce_constraints_fd` does nothing without finite domains) is carried by the correspondence"],
     ),
     "C05": dict(
         title="depth-first search order",
